@@ -84,6 +84,18 @@ type Got struct {
 	Pub    string `json:"pub"`    // sign: public key the wallet manages for the address (hex, compressed)
 	Commit string `json:"commit"` // sign: standard address of the 1-of-1 script of Pub (trusted primitives)
 	JSON   bool   `json:"json"`   // export: returned text parses as a keystore JSON object
+	// impmn: the internal-branch (change) addresses the import restores (InternalIndex = IntN): for index k,
+	// is the reference address managed, and does a SignHash signature (right passphrase) verify under the
+	// key whose 1-of-1 script hash is that address
+	Int []IntObs `json:"int"`
+}
+
+// IntObs is the observation of one internal-branch address after a mnemonic import.
+type IntObs struct {
+	K       int  `json:"k"`
+	Managed bool `json:"managed"`
+	Commit  bool `json:"commit"`
+	SigOK   bool `json:"sigok"`
 }
 
 // Line is one recorded trace line.
